@@ -26,7 +26,7 @@ Checks(e) ==
      <<"decoded value has the same observable field values", \A i \in DOMAIN rs : Has(rs[i], "dec") => rs[i].dec = rs[i].orig>>,
      <<"re-encoding the decoded value reproduces the original bytes", \A i \in DOMAIN rs : Has(rs[i], "reenc") => rs[i].reenc = rs[i].bytes>>,
      <<"the decoded value, read field by field by the specification's encoder, gives the original bytes",
-        \A i \in DOMAIN rs : (Has(rs[i], "dec") /\ Has(rs[i].dec, "T") /\ rs[i].dec.T \in SpecKinds) => Enc(rs[i].dec) = rs[i].bytes>>,
+        Has(e, "nospec") \/ \A i \in DOMAIN rs : (Has(rs[i], "dec") /\ Has(rs[i].dec, "T") /\ rs[i].dec.T \in SpecKinds) => Enc(rs[i].dec) = rs[i].bytes>>,
      <<"the payload decoder is chosen by ethertype / protocol / next-header chain",
         \A i \in DOMAIN rs : (Has(rs[i], "dec") /\ Has(rs[i].dec, "T") /\ rs[i].dec.T \in {"Ethernet", "IPv4", "IPv6"}) => rs[i].dec.Data.T = Demux(rs[i].dec)>>,
      <<"the decoded value accounts for exactly its own bytes (siblings follow)", \A i \in DOMAIN rs : Has(rs[i], "declen") => rs[i].declen = Len(rs[i].bytes)>> >>
@@ -38,7 +38,7 @@ FirstBad(e, k) == LET rs == Res(e)
                                                  [] k = 4 -> Has(rs[i], "dectype") /\ rs[i].dectype # rs[i].origtype
                                                  [] k = 5 -> Has(rs[i], "dec") /\ rs[i].dec # rs[i].orig
                                                  [] k = 6 -> Has(rs[i], "reenc") /\ rs[i].reenc # rs[i].bytes
-                                                 [] k = 7 -> Has(rs[i], "dec") /\ Has(rs[i].dec, "T") /\ rs[i].dec.T \in SpecKinds /\ Enc(rs[i].dec) # rs[i].bytes
+                                                 [] k = 7 -> ~Has(e, "nospec") /\ Has(rs[i], "dec") /\ Has(rs[i].dec, "T") /\ rs[i].dec.T \in SpecKinds /\ Enc(rs[i].dec) # rs[i].bytes
                                                  [] k = 8 -> Has(rs[i], "dec") /\ Has(rs[i].dec, "T") /\ rs[i].dec.T \in {"Ethernet", "IPv4", "IPv6"} /\ rs[i].dec.Data.T # Demux(rs[i].dec)
                                                  [] k = 9 -> Has(rs[i], "declen") /\ rs[i].declen # Len(rs[i].bytes)
                                                  [] OTHER -> FALSE} IN
